@@ -141,7 +141,7 @@ def run(F, res, tier):
             rv = RP_lookup(reviewed, "Q1/" + full, FL.guard_signature(F, f, b, defs))
             if rv:
                 guards = FL.guard_signature(F, f, b, defs)
-                if guards_hold(rv.get("guards", []), guards):
+                if guards_hold(rv.get("guards", []), guards, {v.get("name") for v in (f.d.get("debug") or [])}):
                     res.ob("Q1", full, desc, True, where=f.loc(ln), how="reviewed: %s [guards: %s]" % (rv["reason"], guards), reviewed=True)
                 elif INV.renumbered(f, key.rsplit("/", 1)[0], guards):
                     res.ob("Q1", full, desc, True, where=f.loc(ln), reviewed=True,
@@ -517,20 +517,18 @@ def recursion_follows_nesting_not_length(F, res, rule="Q17"):
         f = F.fns[p_]
         d = FL.Defs(f)
         # iterators / slices this function has started to consume: the receiver of a next() call, the subject of split_first / a [1..] index
-        started = {}
+        started, split = {}, {}
         for b, t in f.calls():
             c = FL.short(callee(t) or callee_def(t) or "")
             last = c.rsplit("::", 1)[-1]
-            if last in ("next", "next_back", "split_first", "split_last", "split_at", "pop", "remove") and t["args"]:
-                o = d.origin_op(t["args"][0], through_calls=REST_PASS)
-                base = o
-                while base.get("k") == "field":
-                    base = base["base"]
-                key = FL.origin_key(base)
-                started.setdefault(key, []).append(b)
-            if last == "index" and len(t["args"]) > 1 and "RangeFrom" in (f.local_ty(FL.op_local_(t["args"][1]) or -1) or ""):
+            if last in ("next", "next_back", "pop", "remove") and t["args"]:
+                # consumed in place: the very same iterator / container (fields of one aggregate are different containers)
                 o = d.origin_op(t["args"][0], through_calls=REST_PASS)
                 started.setdefault(FL.origin_key(o), []).append(b)
+            if last in ("split_first", "split_last", "split_at") and t["args"]:
+                split[("call", b)] = b          # the tail is a part of this call's answer
+            if last == "index" and len(t["args"]) > 1 and "RangeFrom" in (f.local_ty(FL.op_local_(t["args"][1]) or -1) or ""):
+                split[("call", b)] = b
         for b, t in f.calls():
             c = callee(t) or ""
             if c not in r or p_ not in reach(c) and c != p_:
@@ -540,14 +538,17 @@ def recursion_follows_nesting_not_length(F, res, rule="Q17"):
                 if "k" in a:
                     continue
                 o = d.origin_op(a, through_calls=REST_PASS)
-                via = o.get("via") or []
+                key = FL.origin_key(o)
                 base = o
                 while base.get("k") == "field":
                     base = base["base"]
-                key = FL.origin_key(base)
-                # the rest of a sequence this function consumed the head of: the consumption can come before the call
-                if key in started and any(sb == b or f.can_reach(sb, [b]) for sb in started[key]) and base.get("k") in ("arg", "call", "rv", "agg", "multi"):
-                    # results of split_first & co.: the tail is a field of the call's answer, also counts
+                hit = (key in started and o.get("k") in ("arg", "call", "rv", "agg", "multi", "field") and
+                       any(sb == b or f.can_reach(sb, [b]) for sb in started[key]) and
+                       any(x in (f.local_ty(o.get("l")) or "") for x in ("Iter", "Vec<", "IntoIter", "[", "Peekable", "Skip", "Chain", "Map<", "impl ")))
+                hit = hit or (FL.origin_key(base) in split and base.get("k") == "call" and f.can_reach(split[FL.origin_key(base)], [b]) and
+                              any(isinstance(e, dict) and str(e.get("f")) == "1" or isinstance(e, dict) and e.get("n") in ("1",) for e in (o.get("proj") or [])
+                                  ) or FL.origin_key(base) in split and FL.short(callee(base["t"]) or "").endswith("index"))
+                if hit:
                     bad.append("%s hands the rest of a sequence it has begun to consume to %s (line %s)" % (FL.short(p_), FL.short(c), t["ln"]))
     res.floor("calls into recursive cycles of crate ide", n, 20)
     res.ob(rule, "recursion/not-over-the-rest-of-a-list", "no function of a recursive cycle hands the remainder of a sequence it has begun to consume back into the cycle "
